@@ -62,9 +62,9 @@ def gen_case(rng, force_sym=None):
     vshape = []
     for a in range(3):
         if sym[a] != 0:
-            vshape.append(rng.choice([3, 5, 7]) if rng.chance(0.1) else rng.choice([2, 4, 4, 6, 6, 8]))
+            vshape.append(rng.choice([3, 5, 7]) if rng.chance(0.1) else rng.choice([2, 4, 4, 6, 6]))
         else:
-            vshape.append(rng.randint(2, 6))
+            vshape.append(rng.choice([2, 3, 5]))
     objs = []
     for i in range(rng.randint(1, 5)):
         lo, hi, rels = [], [], []
@@ -242,7 +242,7 @@ def nontrivial(case, got):
 
 
 def run(ctx):
-    n = ctx.scale(22, 300)
+    n = ctx.scale(18, 200)
     cases = [gen_case(ctx.rng, force_sym=s) for s in ctx.rng.shuffle([s for s in ALL27 if any(s)])[: n // 2]]
     while len(cases) < n:
         cases.append(gen_case(ctx.rng))
